@@ -68,25 +68,53 @@ def slice_box_rules(ctx):
                             ("y_start", I(f"[0][{cy}]") * fac, "y0"), ("y_stop", (I(f"[1][{cy}]") + 1) * fac, "y1")):
         a = formulas.find_assign(fi, name)
         formulas.formula_rule(ctx, f"{P}.SPAN", fi, a.value if a else None, want, (), f"pixel span {name}", key, env)
-    # normal grid
-    lin = [n for n in walk_no_nested(fi.node) if isinstance(n, ast.Call) and norm(n.func) in rules.LINSPACE]
-    if len(lin) != 1:
-        raise AnalysisError(f"{P}.NORMAL-GRID", site, "normal_grid linspace not found")
+    # normal grid: the cell centres of the box along the normal, in *physical* coordinates (the plane position and
+    # the box selection are physical): first = box_lo + dx/2, step = dx, count = box extent along the normal
     blo, bhi = A(f"args['box'][{cn}][0]"), A(f"args['box'][{cn}][1]")
     dxn = A(f"args['dx'][args['Lv']][{cn}]")
     ncn = I(f"[1][{cn}]") - I(f"[0][{cn}]") + 1
-    formulas.formula_rule(ctx, f"{P}.NORMAL-GRID", fi, lin[0].args[0], blo + dxn / 2, (), "first normal sample", "g0", env)
-    formulas.formula_rule(ctx, f"{P}.NORMAL-GRID", fi, lin[0].args[1], bhi - dxn / 2, (), "last normal sample", "g1", env)
-    # shape[cn]: tuple subscript by cn
-    try:
-        got = expr_ratio(lin[0].args[2], env)
-    except FormulaError as e:
-        raise AnalysisError(f"{P}.NORMAL-GRID", site, str(e))
-    shp = formulas.find_assign(fi, "shape")
-    ok = norm(lin[0].args[2]) == "shape[cn]" and shp is not None and isinstance(shp.value, ast.Tuple) and all(
-        expr_ratio(e, env) == I(f"[1][{d}]") - I(f"[0][{d}]") + 1 for d, e in enumerate(shp.value.elts))
-    ctx.check(ok, f"{P}.NORMAL-GRID", site, "number of normal samples = box extent along the normal",
-              f"normal grid has {norm(lin[0].args[2])} samples", key="gn")
+    ng = formulas.find_assign(fi, "normal_grid")
+    seq = None
+    if ng is not None:
+        try:
+            seq = rules.affine_seq(ng.value, env)
+        except FormulaError:
+            seq = None
+    if seq is None:
+        ctx.unknown(f"{P}.NORMAL-GRID", site, "the normal cell-centre grid is not an arithmetic progression the "
+                                             "evaluator recognises (linspace / arange forms)", key="g0",
+                    where=loc(fi, ng) if ng is not None else None)
+    else:
+        # well-formedness of the task: box_hi = box_lo + n*dx (the task's physical bounds are those of its index range)
+        rel = [{f"args['box'][{cn}][1]": blo + ncn * dxn}]
+        first, step, count = seq["first"], seq["step"], seq["count"]
+        last = first + (count - 1) * step
+        ctx.check(formulas.equal_under(first, blo + dxn / 2, rel), f"{P}.NORMAL-GRID", site,
+                  "first normal sample = box_lo + dx/2 (physical lower face of the box plus half a cell)",
+                  f"first normal sample evaluates to {first}; the specification is {blo + dxn / 2}: the grid must start "
+                  f"from the box's physical bounds (which carry the domain origin), since the plane position and the box "
+                  f"selection are physical coordinates", key="g0", where=loc(fi, ng), semantic=True,
+                  objects={"got": str(first)})
+        ctx.check(formulas.equal_under(last, bhi - dxn / 2, rel), f"{P}.NORMAL-GRID", site,
+                  "last normal sample = box_hi - dx/2",
+                  f"last normal sample evaluates to {last}; the specification is {bhi - dxn / 2}", key="g1",
+                  where=loc(fi, ng), semantic=True, objects={"got": str(last)})
+        count_ok = formulas.equal_under(count, ncn, rel)
+        if not count_ok:
+            # `shape[cn]` with shape a display whose d-th element is the extent along d
+            for c in ast.walk(ng.value):
+                if isinstance(c, ast.Subscript) and norm(c.slice) in ("cn", "args['cn']"):
+                    base, benv = rules.resolve(c.value, env)
+                    if isinstance(base, (ast.Tuple, ast.List)) and len(base.elts) == 3:
+                        try:
+                            count_ok = all(expr_ratio(e, benv) == I(f"[1][{d}]") - I(f"[0][{d}]") + 1
+                                           for d, e in enumerate(base.elts))
+                        except FormulaError:
+                            count_ok = False
+        ctx.check(count_ok, f"{P}.NORMAL-GRID", site,
+                  "number of normal samples = box extent along the normal",
+                  f"the normal grid has {count} samples; the box has {ncn} cells along the normal", key="gn",
+                  where=loc(fi, ng), semantic=True)
     # the four position cases
     chain = None
     for n in fi.node.body:
